@@ -13,6 +13,8 @@ From Coq Require Import NArith Bool List.
 From stdpp Require Import base list option.
 From RecordUpdate Require Import RecordSet.
 From RC Require Import Hdr Machine RunInd Clean CleanFrame CleanStep CleanStep2 CleanThm CleanLog CleanReg.
+From RC Require Inv InvP SafeMain SafeColl Life.
+From RC Require Import CleanSafe CleanU CleanUStep CleanUStep2 CleanUChk CleanUThm.
 Import ListNotations RecordSetNotations.
 
 (** The invariant [CI], spelled out, after every program (all K, P, fuel, command lists; panics,
@@ -180,6 +182,99 @@ Example C10_refuted_F5 :
   /\ ~ In (EBad Fuel 0) (log (run_main f5_conf f5_prog 40 (init f5_conf))).
 Proof. exact CleanThm.C10_refuted_F5. Qed.
 Print Assumptions C10_refuted_F5.
+
+(** ** Follow-up: never lost; the count layer at the drop of a map value; F5 in numbers
+
+    Program level (partial answer to "exactly once by the time the map is gone"): in every run
+    that did not run out of fuel - panics and aborts included - every aid allocated so far is
+    either stored in exactly one slot and has not run, or has run exactly once and is stored
+    nowhere.  No action is ever lost or run twice.  What is NOT proved at program level: "a map
+    whose box is freed has all slots vacant"; [o_box]/[o_vst] are outside the cleaner view, the
+    statement is proved per activation instead ([C10_drop_value_post]: when the drop of a map
+    value returns, all slots are vacant, and by [KU] of [C10_run] a map that no Cleaner names
+    never receives an action again). *)
+Theorem C10_exactly_prog_partial : forall K P fuel cmds,
+  let m := fold_left (fun m c => exec_top K P fuel c m) cmds (init K) in
+  fuel_free m ->
+  forall a, a < next_aid m ->
+    (stored m a /\ a ∉ executed_aids (log m)) \/
+    (count_occ Nat.eq_dec (executed_aids (log m)) a = 1 /\ ~ stored m a).
+Proof. exact C10_never_lost. Qed.
+Print Assumptions C10_exactly_prog_partial.
+
+(** (1), local form: the pre-condition that [SafeFinal.run_okQ] establishes at the entry of
+    every [KDropValue] activation implies that no Cleaner names the value - unless the value is
+    dropped by the collector's drop pass (member of the dying set); that case is covered by
+    [C10_nested_inv] ([KDropList]: no Cleaner names a member, from [PassMain.pass_closed]). *)
+Theorem C10_drop_value_unlinked_partial : forall K b E o m,
+  InvP.Pre K (SafeColl.PreC K) b E (KDropValue o) m -> InvP.inD m o = false -> unlinked_m m o.
+Proof. exact CleanSafe.C10_drop_value_unlinked_partial. Qed.
+Print Assumptions C10_drop_value_unlinked_partial.
+
+(** (1) at every nested activation of every safe run: the strengthened pre/post-conditions
+    ([PreU] / [PostU] modulo the marker [mu], see CleanU.v and CleanUThm.v) hold of
+    [Life.mrun], the interpreter that marks activations starting outside the pre-conditions of
+    the count layer; no marker is ever set along a clean run of a well-formed program; and the
+    same for [run], per activation. *)
+Theorem C10_nested_inv : forall K P mu n,
+  rec_ok (Pre2 mu) (Post2 mu) (Life.mrun K P (chkU K P) mu n).
+Proof. exact CleanUThm.C10_nested_inv. Qed.
+Print Assumptions C10_nested_inv.
+
+Theorem C10_marked_never : forall K P,
+  (k_clean K = true -> k_weak K = true) -> Inv.wf_prog P = true ->
+  forall mu fuel cmds,
+  let m := fold_left (fun m c => exec_top K P fuel c m) cmds (init K) in
+  SafeMain.clean m = true -> length (heap m) <= mu ->
+  fold_left (fun m0 c => Life.mexec_top K P (chkU K P) mu fuel c m0) cmds (init K) = m.
+Proof. exact CleanUThm.C10_marked_never. Qed.
+Print Assumptions C10_marked_never.
+
+Theorem C10_nested_run : forall K P mu n c m,
+  Inv.mem_id mu (dead m) = false -> PreU c m ->
+  exists t, Life.MKmu mu t /\
+    (Inv.mem_id mu (dead (run K P n c m).1 ++ t) = true \/
+     PostU c m (run K P n c m).1 (run K P n c m).2).
+Proof. exact CleanUThm.C10_nested_run. Qed.
+Print Assumptions C10_nested_run.
+
+(** what [PreU] / [PostU] say when a map value is dropped: no Cleaner names it; afterwards every
+    action that was stored in it has run exactly once and every slot is vacant *)
+Theorem C10_drop_value_unlinked : forall c m o,
+  c = KDropValue o -> PreU c m -> forall x, get m o = Some x -> o_ismap x = true -> unlinked_m m o.
+Proof. exact CleanUThm.C10_drop_value_unlinked. Qed.
+Print Assumptions C10_drop_value_unlinked.
+
+Theorem C10_drop_value_post : forall m m' r o x,
+  PreU (KDropValue o) m -> PostU (KDropValue o) m m' r ->
+  get m o = Some x -> o_ismap x = true -> o_vst x = VLive -> (r = ONormal \/ r = OPanic) ->
+  drained m m' o /\ all_vacant m' o.
+Proof. exact CleanUThm.C10_drop_value_post. Qed.
+Print Assumptions C10_drop_value_post.
+
+(** (2), at the Cleaner's drop, F5-aware.  With exact counts (no panic so far) the strong count
+    of the map, when the Cleaner's handle is released, is 1 + the number of handles on it held
+    by active frames (upgraded handles of [clean()] calls in progress). *)
+Theorem C10_cleaner_handle_count : forall K E t m x,
+  InvP.Pre K (SafeColl.PreC K) true E (KDropCc t) m -> get m t = Some x -> o_ismap x = true ->
+  unlinked_m m t -> h_rc (o_hdr x) = N.of_nat (S (Inv.cnt_id t E)).
+Proof. exact CleanSafe.C10_cleaner_handle_count. Qed.
+Print Assumptions C10_cleaner_handle_count.
+
+Theorem C10_cleaner_drop_exactly : forall K P n E o j m x t,
+  CI m -> get m o = Some x -> ~ (j < length (o_fields x)) -> o_cleaner x = Some t ->
+  exists m1,
+    run K P (S (S n)) (KDropFields o j) m = step_drop_cc K P (run K P n) t m1 /\
+    CI m1 /\ unlinked_m m1 t /\ (forall k, slot_at m1 t k = slot_at m t k) /\
+    executed_aids (log m1) = executed_aids (log m) /\ next_aid m1 = next_aid m /\
+    forall xt, InvP.Pre K (SafeColl.PreC K) true E (KDropCc t) m1 ->
+      get m1 t = Some xt -> o_ismap xt = true ->
+      let X := run K P (S (S n)) (KDropFields o j) m in
+      (Inv.cnt_id t E = 0%nat -> o_vst xt = VLive -> is_in_list_or_queue (o_hdr xt) = false ->
+       X.2 = ONormal -> drained m1 X.1 t /\ all_vacant X.1 t) /\
+      ((0 < Inv.cnt_id t E)%nat -> cv X.1 = cv m1).
+Proof. exact CleanSafe.C10_cleaner_drop_exactly. Qed.
+Print Assumptions C10_cleaner_drop_exactly.
 
 Check C10_invariant : forall K P fuel cmds,
   let m := fold_left (fun m c => exec_top K P fuel c m) cmds (init K) in
